@@ -20,6 +20,18 @@ CLAIMED = {
         note="Trusted base: world model + reference interpreter. Enables are generated hazard-free (each input at most once) and never negative; static-hazard enables are outside the checked class (DESIGN.md §12).",
         ref="DESIGN.md §8 C03",
     ),
+    "C04": dict(
+        engine="factosim-exec",
+        text="Seeded exploration, tick-exact: programs with unconditionally self-written cells (nested, named-intermediate, projection and conditional-value forms, optimisation on and off) are compiled under an injected layout fault plan and run free from the paste state for 60-200 ticks with inputs held; the per-tick trace on the cell's directly exported read must satisfy value(t+L) = f_ref(value(t)) for one fixed L at every tick after the power-up transient, and computed readers must follow the cell with a fixed delay.",
+        note="Trusted base: world model + reference interpreter. The power-up transient (inputs reaching the ring through intermediate combinators) is bounded by the blueprint's combinator count and not judged.",
+        ref="DESIGN.md §8 C04",
+    ),
+    "C05": dict(
+        engine="factosim-exec",
+        text="Seeded exploration over boundary histories: latch programs (both argument orders; boolean inputs, comparisons on one shared input - the inlined path -, on different inputs, mixed; v = 1, constants, signals) are compiled under an injected layout fault plan; one input per step walks over threshold-1/threshold/threshold+1 and far values; after each settled step the exported read is compared with a 4-row state machine carrying the declared priority. A step in which one input drops both lines at once is relaxed and counted.",
+        note="Trusted base: world model (decider rows: AND binds tighter than OR) + reference interpreter. Set/reset values are generated 0/1 (the statement speaks of boolean signals and comparisons).",
+        ref="DESIGN.md §8 C05",
+    ),
 }
 
 NOT_YET = {}
